@@ -98,6 +98,7 @@ type iJob[T any] interface {
 	Job[T]
 	StatusProvider
 	changeStatus(s status)
+	startProcessing() bool
 	setAckId(id string)
 	setInternalQueue(q IBaseQueue)
 	ack() error
@@ -176,6 +177,42 @@ func (j *job[T]) changeStatus(s status) {
 	j.status.Store(s)
 }
 
+// startProcessing claims the job for execution. It fails if the job has been closed
+// (cancelled or purged) in the meantime; a claimed job can no longer be closed by Close.
+func (j *job[T]) startProcessing() bool {
+	for {
+		s := j.status.Load()
+
+		if s == closed {
+			return false
+		}
+
+		if j.status.CompareAndSwap(s, processing) {
+			return true
+		}
+	}
+}
+
+// closeStatus moves a closeable job to closed. Of several concurrent callers, and of a
+// caller racing with startProcessing, exactly one wins; the losers get the error that
+// isCloseable reports for the status they lost to.
+func (j *job[T]) closeStatus() error {
+	for {
+		s := j.status.Load()
+
+		switch s {
+		case processing:
+			return ErrJobProcessing
+		case closed:
+			return ErrJobAlreadyClosed
+		}
+
+		if j.status.CompareAndSwap(s, closed) {
+			return nil
+		}
+	}
+}
+
 func (j *job[T]) Wait() {
 	j.wg.Wait()
 }
@@ -241,7 +278,10 @@ func (j *job[T]) Close() error {
 		return err
 	}
 
-	j.status.Store(closed)
+	if err := j.closeStatus(); err != nil {
+		return err
+	}
+
 	j.wg.Done()
 
 	return nil
